@@ -19,6 +19,29 @@ def sval(s):
     return {"s": s}
 
 
+# which functions may be interpreted constants (terms.CONST_SUFFIX), per property: models that compare values (cache keys)
+# only get them at sinks, where no key is ever computed from the collapsed value
+_CONST_POLICY = {"C09": "sinks", "C18": "sinks"}
+
+
+def _const_policy():
+    import os
+    return os.environ.get("VERIF_CONST", _CONST_POLICY.get(os.environ.get("VERIF_PID", ""), "all"))
+
+
+def assign_consts(rng, funcs, p_const=0.15):
+    """Rename some functions to `<name>_none/_zero/_false/_empty` (interpreted constant functions, see terms.py)."""
+    policy = _const_policy()
+    if policy == "off":
+        return
+    for i, f in enumerate(funcs):
+        if rng.random() >= p_const:
+            continue
+        if policy == "sinks" and any(p in f["outputs"] for g in funcs for p, _ in g["params"]):
+            continue
+        f["name"] += rng.choice(["_none", "_none", "_none", "_zero", "_false", "_empty"])   # None is where short-cuts go wrong most
+
+
 def gen_dag(rng, max_funcs=5, roots=3, p_tuple=0.25, p_default=0.3, p_bound=0.15, p_rename=0.3, p_nullary=0.08, max_params=3):
     n = rng.randint(1, max_funcs)
     root_names = [f"r{i}" for i in range(roots)]
@@ -46,6 +69,7 @@ def gen_dag(rng, max_funcs=5, roots=3, p_tuple=0.25, p_default=0.3, p_bound=0.15
         params = [q for q in params if q[0] not in dn] + [q for q in params if q[0] in dn]
         funcs.append({"name": f"f{i}", "params": params, "outputs": outs, "defaults": defaults, "bound": bound})
         produced += outs
+    assign_consts(rng, funcs)
     return {"funcs": funcs}
 
 
